@@ -2,10 +2,13 @@
    Proved: filter_overlapping, on any list of tokens, returns tokens of the input, in text order,
    each starting after the end of every earlier one; every token produced by Trie.tokenize (matched
    or unmatched) carries exactly the slice of the text between its start and end positions.
-   The coverage clause (every non-blank word in exactly one token) and the selection rules
-   (leftmost longest kept, isolated kept, pair rule) are decided by the oracle on all interval
-   configurations up to a bound and by the correspondence; hence the suffix _partial. *)
-Require Import Model.Base Model.Split Model.Trie Model.Overlap Proofs.Overlap.
+   For every well-formed trie (build_trie gives one) and every text: the tokens of Trie.tokenize are
+   in text order, each starting after the end of the one before, each starts and ends on a piece
+   boundary of the text, and every non-blank piece of the text lies inside exactly one of them.
+   The selection rules (leftmost longest kept, isolated kept, pair rule) are decided by the oracle
+   on all interval configurations up to a bound and by the correspondence; the theorem on the
+   filter alone keeps the suffix _partial for that reason. *)
+Require Import Model.Base Model.Split Model.Trie Model.Overlap Proofs.Overlap Proofs.Trie Proofs.Cover.
 
 Theorem C17_disjoint_partial : forall V (l : list (Trie.tok V)), chain_after (filter_overlapping l).
 Proof. intros V. exact (@fo_disjoint V). Qed.
@@ -29,3 +32,34 @@ Theorem C17_token_is_slice : forall V O (tr : trie V) text t,
   In t (t_tokenize O tr text) -> tstring t = slice text (tstart t) (tend t).
 Proof. intros V O. exact (@tokenize_slices V O). Qed.
 Print Assumptions C17_token_is_slice.
+
+Theorem C17_tokens_ordered_and_disjoint : forall V O (tr : trie V), wf_trie tr -> forall text,
+  chain_after (t_tokenize O tr text).
+Proof. intros V O. exact (@tokenize_ordered_disjoint V O). Qed.
+Print Assumptions C17_tokens_ordered_and_disjoint.
+
+Theorem C17_tokens_on_piece_boundaries : forall V O (tr : trie V), wf_trie tr -> forall text t,
+  In t (t_tokenize O tr text) -> on_boundaries (pieces O text) t.
+Proof. intros V O. exact (@tokenize_on_boundaries V O). Qed.
+Print Assumptions C17_tokens_on_piece_boundaries.
+
+Theorem C17_every_word_in_exactly_one_token : forall V O (tr : trie V), wf_trie tr -> forall text p,
+  In p (pieces O text) -> is_word_piece O p = true ->
+  exists pre t post, t_tokenize O tr text = pre ++ t :: post /\ covers t p /\
+                     (forall t', In t' (pre ++ post) -> ~ covers t' p).
+Proof. intros V O. exact (@tokenize_covers_once V O). Qed.
+Print Assumptions C17_every_word_in_exactly_one_token.
+
+(* the premises are satisfiable and the statements say something: three overlapping names
+   "a b" / "b c d" / "d e" and the text "x (a b c d e) y" with glued parentheses *)
+Require Import Model.Index.
+Definition C17_example_trie : trie nat :=
+  t_make_automaton (add_ops ascii_oracle t_empty
+     [([97;32;98], 1%nat); ([98;32;99;32;100], 2%nat); ([100;32;101], 3%nat)]%N).
+Example C17_example_wf : wf_trie C17_example_trie.
+Proof. apply wf_make. apply (wf_add_ops ascii_oracle). apply wf_empty. Qed.
+Example C17_example_tokens :
+  map (fun t => (tstart t, tend t, tvalue t))
+      (t_tokenize ascii_oracle C17_example_trie [120;32;40;97;32;98;32;99;32;100;32;101;41;32;121]%N)
+  = [(0, 0, None); (2, 2, None); (3, 3, None); (5, 9, Some 2%nat); (11, 11, None); (12, 12, None); (14, 14, None)]%Z.
+Proof. vm_compute. reflexivity. Qed.
